@@ -11,15 +11,25 @@
 (***************************************************************************)
 EXTENDS Handshake, Json
 
-CONSTANTS Family,     \* "mj_basic" "mj_restricted" "mj_qerr" "ml" "sj_shape" "sj_trust" "inv" "e2e"
-          Versions,   \* room versions enumerated by the product families
-          Width       \* "quick" | "thorough": size of the allow-list alphabet of mj_restricted
+CONSTANTS Family,     \* "mj_basic" "mj_restricted" "mj_qerr" "ml" "sj_shape" "sj_trust" "inv" "inv3" "e2e", or
+                      \* "all": every product family and the end-to-end behaviours in one run (quick tier)
+          Width       \* "quick" | "thorough": room versions per family, allow-list alphabet of mj_restricted
 
 VersionsQuick      == {"1", "10"}
 VersionsQuick1     == {"10"}
 VersionsThorough   == {"1", "2", "3", "6", "7", "8", "9", "10", "11", "12"}
 RVersionsQuick     == {"10", "12"}
 RVersionsThorough  == {"8", "9", "10", "11", "12"}
+
+\* room versions enumerated by a product family
+Vers(f) ==
+    IF Width = "thorough"
+    THEN (IF f \in {"mj_restricted", "mj_qerr"} THEN RVersionsThorough ELSE VersionsThorough)
+    ELSE CASE f \in {"mj_restricted", "mj_qerr"} -> RVersionsQuick
+           [] f \in {"sj_trust", "inv"} -> VersionsQuick1
+           [] OTHER -> VersionsQuick
+
+Fam(s, f) == [s EXCEPT !.fam = f]
 
 Mem5 == {"none", "leave", "invite", "join", "ban"}
 TB   == {"ok", "err", "nilev", "nilstate", "wrongtype", "nocreate"}
@@ -40,77 +50,90 @@ Ev(t, m, ss, sk, rm, via, sig) ==
 
 \* ---- make_join: every request parameter x membership x join rule x template builder --------
 InitMJBasic ==
-    \E v \in Versions, o \in {"J", "X"}, u \in {"J", "X", "R"}, vs \in {"has", "lacks", "none"},
+    \E v \in Vers("mj_basic"), o \in {"J", "X"}, u \in {"J", "X", "R"}, vs \in {"has", "lacks", "none"},
        ir \in BOOLEAN, jr \in {"none", "public", "invite", "knock"}, mem \in Mem5, tb \in TB :
-        /\ sc = [Base(v) EXCEPT !.inRoom = ir, !.jr = jr, !.mem = mem, !.tb = tb]
+        /\ sc = [Fam(Base(v), "mj_basic") EXCEPT !.inRoom = ir, !.jr = jr, !.mem = mem, !.tb = tb]
         /\ net = MJReq(o, u, vs) /\ phase = "mjreq"
 
 \* ---- make_join in restricted rooms: allow lists x pending invite x authoriser standing --------
 InitMJRestricted ==
-    \E v \in Versions, ir \in BOOLEAN, jr \in RestrictedRules, mem \in Mem5, pend \in BOOLEAN,
+    \E v \in Vers("mj_restricted"), ir \in BOOLEAN, jr \in RestrictedRules, mem \in Mem5, pend \in BOOLEAN,
        al \in AllowLists, ah \in BOOLEAN :
     \E apl \in (IF PrivCreators(v) THEN {"ok", "low", "creator"} ELSE {"ok", "low"}) :
         /\ RestrictedSupported(v)
-        /\ sc = [Base(v) EXCEPT !.inRoom = ir, !.jr = jr, !.mem = mem, !.pending = pend, !.allow = al,
+        /\ sc = [Fam(Base(v), "mj_restricted") EXCEPT !.inRoom = ir, !.jr = jr, !.mem = mem, !.pending = pend, !.allow = al,
                                 !.apl = apl, !.aHere = ah]
         /\ net = MJReq("J", "J", "has") /\ phase = "mjreq"
 
 \* ---- make_join: failing queriers --------
 InitMJQerr ==
-    \E v \in Versions, q \in {"jr_err", "pending_err", "pl_missing"}, jr \in {"public", "restricted"},
+    \E v \in Vers("mj_qerr"), q \in {"jr_err", "pending_err", "pl_missing"}, jr \in {"public", "restricted"},
        pend \in BOOLEAN, mem \in {"none", "invite"}, al \in {<<"listed">>, <<"nonres">>} :
         /\ RestrictedSupported(v)
-        /\ sc = [Base(v) EXCEPT !.jr = jr, !.mem = mem, !.pending = pend, !.allow = al, !.qerr = q]
+        /\ sc = [Fam(Base(v), "mj_qerr") EXCEPT !.jr = jr, !.mem = mem, !.pending = pend, !.allow = al, !.qerr = q]
         /\ net = MJReq("J", "J", "has") /\ phase = "mjreq"
 
 \* ---- make_leave --------
 InitML ==
-    \E v \in Versions, o \in {"J", "X"}, u \in {"J", "X", "R"}, ir \in BOOLEAN, mem \in Mem5, tb \in TB :
-        /\ sc = [Base(v) EXCEPT !.inRoom = ir, !.mem = mem, !.tb = tb]
+    \E v \in Vers("ml"), o \in {"J", "X"}, u \in {"J", "X", "R"}, ir \in BOOLEAN, mem \in Mem5, tb \in TB :
+        /\ sc = [Fam(Base(v), "ml") EXCEPT !.inRoom = ir, !.mem = mem, !.tb = tb]
         /\ net = MLReq(o, u) /\ phase = "mlreq"
 
 \* ---- send_join: shape of the event against the request --------
 InitSJShape ==
-    \E v \in Versions, t \in {"member", "other"}, m \in {"join", "leave", "invite", "missing"},
+    \E v \in Vers("sj_shape"), t \in {"member", "other"}, m \in {"join", "leave", "invite", "missing"},
        sk \in {"sender", "other", "empty", "absent"}, rm \in {"main", "other"}, eid \in {"match", "other"},
        via \in Via4, mem \in {"none", "ban"}, sig \in {"valid", "none"} :
-        /\ sc = [Base(v) EXCEPT !.mem = mem]
+        /\ sc = [Fam(Base(v), "sj_shape") EXCEPT !.mem = mem]
         /\ net = [k |-> "sjreq", origin |-> "J", room |-> "main", eid |-> eid, ev |-> Ev(t, m, "J", sk, rm, via, sig)]
         /\ phase = "sjreq"
 
 \* ---- send_join: who sent it, who signed it, what R knows about the sender --------
 InitSJTrust ==
-    \E v \in Versions, o \in {"J", "X"}, ss \in {"J", "X", "R"}, sig \in Sig6, mem \in Mem5, via \in Via4,
+    \E v \in Vers("sj_trust"), o \in {"J", "X"}, ss \in {"J", "X", "R"}, sig \in Sig6, mem \in Mem5, via \in Via4,
        uq \in {"ok", "err", "nil"}, rv \in {"known", "unknown"}, m \in {"join", "leave"} :
-        /\ sc = [Base(v) EXCEPT !.mem = mem, !.uq = uq, !.rv = rv]
+        /\ sc = [Fam(Base(v), "sj_trust") EXCEPT !.mem = mem, !.uq = uq, !.rv = rv]
         /\ net = [k |-> "sjreq", origin |-> o, room |-> "main", eid |-> "match", ev |-> Ev("member", m, ss, "sender", "main", via, sig)]
         /\ phase = "sjreq"
 
 \* ---- invite --------
 InitInv ==
-    \E v \in Versions, rv \in {"known", "unknown"}, t \in {"member", "other"}, m \in {"invite", "join", "leave", "missing"},
+    \E v \in Vers("inv"), rv \in {"known", "unknown"}, t \in {"member", "other"}, m \in {"invite", "join", "leave", "missing"},
        sk \in {"invitee", "otherlocal", "sender", "absent"}, rm \in {"main", "other"}, sig \in Sig6,
        kn \in BOOLEAN, uq \in {"ok", "err", "nil"} :
     \E mem \in (IF kn THEN Mem5 ELSE {"none"}) :
-        /\ sc = [Base(v) EXCEPT !.rv = rv, !.known = kn, !.mem = mem, !.uq = uq]
+    \* quick: the way the stripped state arrives is varied for every event shape, with a sender the server can check
+    \E st \in (IF Width = "thorough" \/ (sig = "valid" /\ uq = "ok") THEN {"none", "given"} ELSE {"none"}) :
+        /\ sc = [Fam(Base(v), "inv") EXCEPT !.rv = rv, !.known = kn, !.mem = mem, !.uq = uq, !.stripped = st]
         /\ net = [k |-> "invreq", room |-> "main", ev |-> Ev(t, m, "J", sk, rm, "none", sig)]
         /\ phase = "invreq"
 
+\* ---- invite, v3 endpoint (pseudo-ID rooms): shares the common checks of the invite handler --------
+InitInv3 ==
+    \E rv \in {"known", "unknown"}, rm \in {"main", "other"}, kn \in BOOLEAN, st \in {"none", "given"} :
+    \E mem \in (IF kn THEN Mem5 ELSE {"none"}) :
+        /\ sc = [Fam(Base("org.matrix.msc4014"), "inv3") EXCEPT !.rv = rv, !.known = kn, !.mem = mem, !.stripped = st]
+        /\ net = [k |-> "inv3req", room |-> "main", proom |-> rm]
+        /\ phase = "inv3req"
+
+Is(f) == Family = f \/ Family = "all"
+
 GInit ==
-    IF Family = "e2e" THEN Init
-    ELSE /\ flow = "product" /\ jev = NoEv /\ hist = <<>> /\ nforge = 0 /\ pj = ""
-         /\ \/ Family = "mj_basic" /\ InitMJBasic
-            \/ Family = "mj_restricted" /\ InitMJRestricted
-            \/ Family = "mj_qerr" /\ InitMJQerr
-            \/ Family = "ml" /\ InitML
-            \/ Family = "sj_shape" /\ InitSJShape
-            \/ Family = "sj_trust" /\ InitSJTrust
-            \/ Family = "inv" /\ InitInv
+    \/ Is("e2e") /\ Init
+    \/ /\ flow = "product" /\ jev = NoEv /\ hist = <<>> /\ nforge = 0 /\ pj = ""
+       /\ \/ Is("mj_basic") /\ InitMJBasic
+          \/ Is("mj_restricted") /\ InitMJRestricted
+          \/ Is("mj_qerr") /\ InitMJQerr
+          \/ Is("ml") /\ InitML
+          \/ Is("sj_shape") /\ InitSJShape
+          \/ Is("sj_trust") /\ InitSJTrust
+          \/ Is("inv") /\ InitInv
+          \/ Is("inv3") /\ InitInv3
 
 GSpec == GInit /\ [][Next]_vars
 
 \* one record per finished behaviour
 Emit ==
     phase = "done" =>
-        PrintT(ToJson([fam |-> Family, flow |-> flow, sc |-> sc, hist |-> hist, pj |-> pj]))
+        PrintT(ToJson([fam |-> sc.fam, flow |-> flow, sc |-> sc, hist |-> hist, pj |-> pj]))
 =============================================================================
